@@ -35,6 +35,10 @@ type Op struct {
 	Seq   uint32 `json:"seq,omitempty"`
 	Type  uint16 `json:"type,omitempty"`
 	Sleep int64  `json:"sleep_us,omitempty"`
+	// Twin (push of a message): the message is a distinct message with the SAME record type, text and timestamp as
+	// the one pushed by the previous push op of this sequence (twin AVC / PATH records of one event): it is a
+	// record of its own and must be delivered like any other
+	Twin bool `json:"twin,omitempty"`
 }
 
 // History is one generated case: a configuration plus a call sequence.
@@ -215,13 +219,25 @@ func Execute(h *History, o ExecOpts) (tr *Trace) {
 		}
 		switch op.Kind {
 		case OpPushMsg:
+			src := k
+			if op.Twin {
+				for j := k - 1; j >= 0; j-- {
+					if h.Ops[j].Kind == OpPushMsg && h.Ops[j].Seq == op.Seq && h.Ops[j].Type == op.Type {
+						src = j
+						if h.Ops[j].Twin {
+							continue // the twin of a twin copies the original
+						}
+						break
+					}
+				}
+			}
 			m := &auparse.AuditMessage{
 				RecordType: auparse.AuditMessageType(op.Type),
 				Sequence:   op.Seq,
 				// records of one sequence carry different timestamps on purpose: events are identified by the
 				// sequence number alone
-				Timestamp: time.Unix(1700000000+int64(k%5), int64(k%1000)*1e6),
-				RawData:   RawBody(op.Seq, k),
+				Timestamp: time.Unix(1700000000+int64(src%5), int64(src%1000)*1e6),
+				RawData:   RawBody(op.Seq, src),
 				Payload:   k,
 			}
 			tr.pushedPtr[m] = k
